@@ -3,6 +3,8 @@
 group  : {"sig": [[kind, name, default|null], ...],      kind 0..4 = positional-only, positional-or-keyword,
           "meth": null | "pk" | "po",                    *args, keyword-only, **kwargs
           "partial": false|true,
+          "receiver": "plain" | "falsy_bool" | "len0" | "bool_raises" | "eq_all" | "emptylist" | "emptydict" | "zero"
+                      | "slots" | "classmethod",       what a bound method is bound to (default plain)
           "family": null | {"kind": "share"|"wraps", "sigs": [sig0, sig1, ...]},
           "calls": [[pos, kw, ign, idx?], ...]}           pos: [code], kw: [[name, code]], ign: [name|'*'|'**'] | null
 result : {"src": <def line>, "res": [{"real": ..., "insp": ..., "fa": ...}, ...]}
@@ -162,11 +164,42 @@ def the_decorator(f):
     return wrapper
 
 
-def as_callable(f, meth):
-    """(callable, instance)"""
+def _raise_bool(self):
+    raise RuntimeError("truth value refused")
+
+
+def as_callable(f, meth, receiver="plain"):
+    """(callable, receiver).  `receiver` selects what the method is bound to: an ordinary instance, instances
+    with non-standard truthiness / equality, an instance of a class with __slots__, or the class itself
+    (bound classmethod)."""
     if not meth:
         return f, None
-    obj = type("K", (), {"m": f})()
+    ns, bases = {"m": f}, (object,)
+    if receiver == "falsy_bool":
+        ns["__bool__"] = lambda self: False
+    elif receiver == "len0":
+        ns["__len__"] = lambda self: 0
+    elif receiver == "bool_raises":
+        ns["__bool__"] = _raise_bool
+    elif receiver == "eq_all":
+        ns["__eq__"] = lambda self, other: True
+        ns["__ne__"] = lambda self, other: False
+        ns["__hash__"] = object.__hash__
+    elif receiver == "emptylist":
+        bases = (list,)
+    elif receiver == "emptydict":
+        bases = (dict,)
+    elif receiver == "zero":
+        bases = (int,)
+    elif receiver == "slots":
+        ns["__slots__"] = ()
+    elif receiver == "classmethod":
+        ns["m"] = classmethod(f)
+        cls = type("K", bases, ns)
+        return cls.m, cls
+    elif receiver != "plain":
+        raise ValueError(receiver)
+    obj = type("K", bases, ns)()
     return obj.m, obj
 
 
@@ -176,14 +209,14 @@ def make_all(g):
     fam = g.get("family")
     if not fam:
         f, line = plain_function(full_sig(g["sig"], meth), "m" if meth else "f")
-        c, obj = as_callable(f, meth)
-        return [(c, obj, line, g["sig"])]
+        c, obj = as_callable(f, meth, g.get("receiver", "plain"))
+        return [(c, obj, line + ("  # bound to: " + g["receiver"] if g.get("receiver") else ""), g["sig"])]
     out = []
     if fam["kind"] == "share":
         f0, line0 = plain_function(full_sig(fam["sigs"][0], meth), "m" if meth else "f")
         for i, sg in enumerate(fam["sigs"]):
             f = f0 if i == 0 else same_code_function(f0, full_sig(sg, meth), "m" if meth else "f")
-            c, obj = as_callable(f, meth)
+            c, obj = as_callable(f, meth, g.get("receiver", "plain"))
             out.append((c, obj, src_of(full_sig(sg, meth), "m" if meth else "f").splitlines()[0] + "  # code shared", sg))
     elif fam["kind"] == "wraps":
         for sg in fam["sigs"]:
